@@ -1,7 +1,7 @@
 SPECIFICATION Spec
 CONSTANTS
   Dialect = "code"
-  TokLeaves = {"a", ","}
+  TokLeaves = {"a"}
   DocDepth = 2
   SubDepth = 2
   Wide = FALSE
